@@ -110,6 +110,7 @@ using Shell = %(shell_t)s; using Comp = %(comp_t)s;
 static const char* CL[] = {"A", "B", "C"};
 enum St { IDLE = 0, CLAIMING, HOLDING, RELEASING };
 struct Fixture {
+  %(user_facilities)s
   dzn::locator loc; %(sns)s::ILog log; std::unique_ptr<Shell> sh; Comp* comp = nullptr; dzn::pump* pump = nullptr;
   int ncl; std::atomic<int> st[3]; std::atomic<long> ep[3]; std::atomic<int> got[3]; std::atomic<int> live{0};
   bool claimed = false;                                                   // dispatcher thread only
@@ -119,8 +120,9 @@ struct Fixture {
   explicit Fixture(int n) : ncl(n) {
     for (int i = 0; i < 3; ++i) { st[i] = IDLE; ep[i] = 0; got[i] = 0; }
     verif::registry().reset();
+    %(publish_facilities)s
     sh.reset(new Shell(loc, log, "inst")); comp = static_cast<Comp*>(verif::registry().component);
-    pump = &sh->Locator().get<dzn::pump>();
+    %(find_pump)s
     // a legal arbiter: grants iff unclaimed
     comp->%(port)s.in.%(claim)s = [this]%(claim_sig)s { ++handled; %(claim_outs)s if (!claimed) { claimed = true; return %(grant)s; } return %(deny)s; };
     comp->%(port)s.in.%(release)s = [this]%(release_sig)s { ++handled; %(release_outs)s claimed = false; };
@@ -216,6 +218,10 @@ int main(int argc, char** argv) {
 }
 ''' % {
         'shell_t': shell_t, 'comp_t': comp_t, 'sns': sns, 'port': p.name, 'cap': p.cap,
+        # facilities origin: with 'import' the user owns dispatcher and runtime and publishes them in the locator
+        'user_facilities': 'dzn::pump user_pump; dzn::runtime user_rt;' if cfg.get('fac') == 'import' else '',
+        'publish_facilities': 'loc.set(user_pump).set(user_rt);' if cfg.get('fac') == 'import' else '',
+        'find_pump': 'pump = &user_pump;' if cfg.get('fac') == 'import' else 'pump = &sh->Locator().get<dzn::pump>();',
         'claim': claim.name, 'release': release.name, 'other': other.name, 'out': out_ev.name,
         'claim_sig': sig(claim), 'release_sig': sig(release),
         'claim_outs': ' '.join(f'{f[0]} = {f[1]}(7);' for f in claim.formals if f[2] != 'in'),
